@@ -112,10 +112,54 @@ class TlcOut:
         return cov
 
 
+def _spec_key(module, cfg, extra=""):
+    """content hash of every specification source + the cfg: model-checking results depend on
+    nothing else (in particular not on /repo), so they are memoised under .build/mc-cache"""
+    h = hashlib.sha256()
+    import glob
+    for f in sorted(glob.glob(os.path.join(SPEC, "*.tla"))):
+        h.update(f.encode() + b"\0" + open(f, "rb").read())
+    h.update(open(os.path.join(SPEC, cfg), "rb").read())
+    h.update((module + "|" + cfg + "|" + extra).encode())
+    return h.hexdigest()[:24]
+
+
+def _cache_get(key):
+    p = os.path.join(BUILD, "mc-cache", key + ".json")
+    if os.environ.get("VERIF_NO_MC_CACHE") or not os.path.exists(p):
+        return None
+    try:
+        return json.load(open(p))
+    except Exception:
+        return None
+
+
+def _cache_put(key, obj):
+    d = os.path.join(BUILD, "mc-cache")
+    os.makedirs(d, exist_ok=True)
+    tmp = os.path.join(d, key + ".tmp%d" % os.getpid())
+    json.dump(obj, open(tmp, "w"))
+    os.replace(tmp, os.path.join(d, key + ".json"))
+
+
 def mc(module, cfg, expect_violation=None, **kw):
     """model-check; returns TlcOut.  expect_violation: invariant name that MUST be violated
-    (deviation / reachability configs); None: no violation may occur."""
+    (deviation / reachability configs); None: no violation may occur.
+    Results are memoised by the content hash of the spec sources (set VERIF_NO_MC_CACHE=1 to force)."""
+    key = None
+    if not kw.get("extra") and not kw.get("env"):
+        key = _spec_key(module, cfg, "mc")
+        c = _cache_get(key)
+        if c is not None:
+            r = TlcOut(c["out"], c["rc"], c["dt"])
+            r.cached = True
+            if (expect_violation is None and not r.violated and r.completed and r.distinct > 0) or (expect_violation and r.violated == expect_violation):
+                log("[tlc] %s %s: %d generated, %d distinct, depth %d (memoised: identical spec sources, first run took %.1fs)%s" % (
+                    module, os.path.basename(cfg), r.generated, r.distinct, r.depth, r.dt, (" (expected violation of %s found)" % expect_violation) if expect_violation else ""))
+                return r
     r = tlc(module, cfg, **kw)
+    if key:
+        _cache_put(key, {"out": r.out[-20000:], "rc": r.rc, "dt": r.dt})
     if expect_violation is None:
         if r.violated:
             raise ModelViolation(module, cfg, r)
@@ -231,6 +275,12 @@ def parse_tla(s):
 
 def dump_hists(module, cfg, var="hist", **kw):
     """model-check with -dump and return (TlcOut, [hist value per distinct state])"""
+    key = _spec_key(module, cfg, "dump:" + var)
+    c = _cache_get(key)
+    if c is not None:
+        r = TlcOut(c["out"], c["rc"], c["dt"])
+        log("[tlc] %s %s: state dump memoised (%d sequences)" % (module, cfg, len(c["hists"])))
+        return r, c["hists"]
     wd = workdir("dump-%s-%s-%d" % (module, os.path.basename(cfg).replace(".cfg", ""), os.getpid()))
     dumpf = os.path.join(wd, "dump")
     r = mc(module, cfg, extra=["-dump", dumpf], wd=wd, **kw)
@@ -242,6 +292,7 @@ def dump_hists(module, cfg, var="hist", **kw):
         if m:
             hists.append(parse_tla(m.group(1).strip()))
     shutil.rmtree(wd, ignore_errors=True)
+    _cache_put(key, {"out": r.out[-20000:], "rc": r.rc, "dt": r.dt, "hists": hists})
     return r, hists
 
 
